@@ -43,7 +43,7 @@
   "C12"
  ],
  "level": "U",
- "tier": "wip",
+ "tier": "thorough",
  "harness": "h_write_tdb",
  "enforce": [
   "undo_write_tdb"
@@ -88,7 +88,7 @@
   "C12"
  ],
  "level": "U",
- "tier": "wip",
+ "tier": "thorough",
  "harness": "h_write_tdb",
  "enforce": [
   "undo_write_tdb"
@@ -132,7 +132,7 @@
   "C12"
  ],
  "level": "U",
- "tier": "wip",
+ "tier": "thorough",
  "harness": "h_write_tdb",
  "enforce": [
   "undo_write_tdb"
@@ -178,7 +178,7 @@
   "C12"
  ],
  "level": "U",
- "tier": "wip",
+ "tier": "obs",
  "harness": "h_write_tdb",
  "enforce": [
   "undo_write_tdb"
@@ -224,7 +224,7 @@
   "C12"
  ],
  "level": "U",
- "tier": "wip",
+ "tier": "obs",
  "harness": "h_write_tdb",
  "enforce": [
   "undo_write_tdb"
@@ -270,7 +270,7 @@
   "C12"
  ],
  "level": "U",
- "tier": "obs",
+ "tier": "thorough",
  "harness": "h_write_tdb",
  "enforce": [
   "undo_write_tdb"
